@@ -29,6 +29,23 @@ INPUTS = collections.OrderedDict([
     ("error-and-suppressed", ({"e2.c": "int e2(int x){ return x/0; }\nvoid e3(void){ int a[2]; a[3]=0; }\n", "ok1.c": OK1},
                               ["e2.c", "ok1.c"], ["--suppress=zerodiv"])),
 ])
+# inputs whose ONLY finding is one kind of whole-program finding (prototypes in a shared header: the CTU call id is the
+# location of the declaration)
+WP_INPUTS = collections.OrderedDict([
+    ("wp-staticFunction", ({"sf.c": "int helper(int p){ return p+1; }\nint main(void){ return helper(1); }\n", "decl.c": "typedef int decl_t;\n"},
+                           ["sf.c", "decl.c"], ["--enable=style,unusedFunction"])),
+    ("wp-unusedFunction", ({"uf.c": "int uf(int p){ return p; }\n", "ok1.c": OK1}, ["uf.c", "ok1.c"], ["--enable=unusedFunction"])),
+    ("wp-ctunullpointer", ({"n.h": "int nf(const int *p);\n", "n1.c": '#include "n.h"\nint nf(const int *p){ return *p; }\n',
+                            "n2.c": '#include "n.h"\nint main(void){ const int *q = 0; return nf(q); }\n'}, ["n1.c", "n2.c"], [])),
+    ("wp-ctuuninitvar", ({"u.h": "int uf(int *p);\n", "u1.c": '#include "u.h"\nint uf(int *p){ return *p; }\n',
+                          "u2.c": '#include "u.h"\nint main(void){ int x; return uf(&x); }\n'}, ["u1.c", "u2.c"], [])),
+    ("wp-ctuArrayIndex", ({"a.h": "int af(const int *a);\n", "a1.c": '#include "a.h"\nint af(const int *a){ return a[10]; }\n',
+                           "a2.c": '#include "a.h"\nint main(void){ int a[5] = {0}; return af(a); }\n'}, ["a1.c", "a2.c"], [])),
+    ("wp-ctuOneDefinitionRuleViolation", ({"o1.cpp": "struct S { int a; };\nint of1(const S &s){ return s.a; }\n",
+                                           "o2.cpp": "struct S { char a; int b; };\nint of2(const S &s){ return s.b; }\n"},
+                                          ["o1.cpp", "o2.cpp"], [])),
+])
+INPUTS.update(WP_INPUTS)
 CACHED = ["error", "two-errors", "style", "unmatchedSuppression", "unusedFunction", "suppressed", "inline-suppressed", "syntax-error"]
 EXITCODES = [None, 0, 1, 7]
 NKINDS = ["absent", "all", "partial", "none"]
@@ -116,6 +133,9 @@ def classify(case, runno, R, unmatched, exp, got):
     ids = sorted(set(f["id"] for f in R))
     if exp == 0 and got != 0 and ids == ["unmatchedSuppression"] and nkind in ("all", "partial"):
         return "unmatchedSuppression-ignores-exitcode-suppressions"
+    if name in WP_INPUTS:
+        mode = ("builddir-run%d" % (runno + 1)) if cached else "no-builddir"
+        return "status:%s:%s:%s:N=%s:expected-%s" % (name, executor, mode, nkind, "zero" if exp == 0 else "exitcode")
     return "status:%s:N=%s:%s:%s:%s:expected-%s" % (name, nkind, executor, fmt, ("cached-run%d" % (runno + 1)) if cached else "fresh",
                                                     "zero" if exp == 0 else "exitcode")
 
@@ -147,17 +167,32 @@ def main(tier, replay=None):
             probes[(name, cached)] = res[0][2] or []
     cases = []
     for name in INPUTS:
+        if name in WP_INPUTS:
+            continue
         for exitcode, nkind, executor, fmt in itertools.product(EXITCODES, NKINDS, EXECUTORS, FORMATS):
             if tier == "quick" and executor != "single" and exitcode in (0, 1):
                 continue                     # quick: the parallel executors with --error-exitcode absent / 7 only
             if tier == "quick" and nkind == "partial" and name not in ("two-errors", "error-and-suppressed", "unusedFunction"):
                 continue                     # quick: with a single finding 'first finding only' says what 'all ids' says
             cases.append((name, exitcode, nkind, executor, fmt, False))
+    # whole-program inputs: single job without build dir; single job, thread -j2 and process -j2 with a build dir (fresh run
+    # and cached second run).  (-j2 without build dir does not run the whole-program checks at all.)
+    wp_cases = []
+    for name in WP_INPUTS:
+        for exitcode, nkind, fmt in itertools.product(EXITCODES, ("absent", "all", "none"), FORMATS):
+            if tier == "quick" and (fmt == "xml" or (exitcode in (0, 1) and nkind != "absent")):
+                continue
+            wp_cases.append((name, exitcode, nkind, "single", fmt, False))
+            for executor in EXECUTORS:
+                wp_cases.append((name, exitcode, nkind, executor, fmt, True))
     for name in CACHED:
         for exitcode, nkind, executor, fmt in itertools.product(EXITCODES, NKINDS, EXECUTORS, FORMATS):
             if tier == "quick" and (fmt == "xml" or exitcode in (0, 1) or nkind in ("partial", "none")):
                 continue
             cases.append((name, exitcode, nkind, executor, fmt, True))
+
+    cases += wp_cases
+    ctx.cov["whole_program_cases"] = len(wp_cases)
 
     def work(c):
         if ctx.expired():
@@ -183,6 +218,11 @@ def main(tier, replay=None):
                 tally["undecided"] += 1
                 continue
             tally["runs_with_reported_findings" if R else "runs_without_findings"] += 1
+            if name in WP_INPUTS:
+                want = name[3:]
+                ids = set(f["id"] for f in R)
+                tally["wp_runs_whose_only_finding_is_the_whole_program_one" if ids == {want} else
+                      "wp_runs_without_the_finding" if want not in ids else "wp_runs_with_other_findings_too"] += 1
             if R and not unmatched:
                 tally["runs_where_every_finding_is_exitcode_suppressed"] += 1
             if R and unmatched and len(unmatched) < len(R):
@@ -227,7 +267,9 @@ def main(tier, replay=None):
         rule="full product inputs(11) x --error-exitcode{absent,0,1,7} x exitcode-suppressions{absent, all ids, first finding as "
              "id:file:line, non-matching} x executor{single, thread -j2, process -j2} x {text, xml}; cached inputs (8) run twice on a "
              "fresh build dir (quick: text, exitcode absent/7, N absent/all; parallel executors with exitcode absent/7 only; 'first finding' entries only for inputs with two findings); 10 invalid command lines x exitcode{absent,0,7} x "
-             "executor; evaluation = one process run; distinct = lattice element; nontrivial = all")
+             "executor; 6 inputs whose only finding is staticFunction / unusedFunction / ctunullpointer / ctuuninitvar / ctuArrayIndex "
+             "/ ctuOneDefinitionRuleViolation x {single no build dir; single, thread -j2, process -j2 each with a fresh build dir, "
+             "two runs} x exitcode x exitcode-suppressions{absent, matching, non-matching}; evaluation = one process run; distinct = lattice element; nontrivial = all")
 
 
 def do_replay(ctx, replay):
